@@ -45,10 +45,10 @@ def plan(tier, seed):
     corpus = json.load(open(os.path.join(env.VERIF, "corpus.json")))
     for i in range(0, len(corpus), 12):
         cases.append({"kind": "corpus", "lo": i, "hi": min(len(corpus), i + 12), "seed": seed})
-    n = 40 if tier == "quick" else 700
+    n = 128 if tier == "quick" else 700
     for i in range(n):
         cases.append({"kind": "arch", "seed": seed * 100043 + i, "n": 30})
-    n = 8 if tier == "quick" else 120
+    n = 32 if tier == "quick" else 120
     for i in range(n):
         cases.append({"kind": "token", "seed": seed * 100057 + i, "n": 200})
     return cases
